@@ -53,7 +53,8 @@ def ast_node_from_value(value: Any, input_type: GraphQLType) -> _ast.Value:
         return _ast.NullValue()
 
     if isinstance(input_type, ListType):
-        if is_iterable(value, strings=False):
+        # A dict is a single input object standing for a one item list.
+        if is_iterable(value, strings=False) and not isinstance(value, dict):
             return _ast.ListValue(
                 values=[
                     ast_node_from_value(entry, input_type.type)
